@@ -546,6 +546,64 @@ def _points(tier, name, i, j):
         yield dict(zip(m["params"], vals))
 
 
+TRACE_POINTS = [  # slow reaction in a fast-flushed tank: the product stays many orders of magnitude below the reactant
+    (dict(k="1/1000000000", r=2, p=0, fr="3/2", fp=0, fv=50), 3),
+    (dict(k="1/1000000000000", r=2, p=0, fr="3/2", fp=0, fv=1000), 3),
+    (dict(k="1/1000000", r=1, p=0, fr=1, fp=0, fv=1), "1/1000"),
+]
+TOL_TRACE = 1e-9  # relative, per component (measured on the pinned tree: < 1e-14)
+
+
+def _check_trace(res, S):
+    """unary_irrev_cstr where the product is a trace: every float backend gives each component to a relative 1e-9 of the 60-digit
+    symbolic value (a mixed absolute/relative comparison would not see the product at all)"""
+    import numpy as np
+
+    name = "unary_irrev_cstr"
+    for pt, tv in TRACE_POINTS:
+        p = {q: Fr(pt[q]) for q in MECH[name]["params"]}
+        pm, rows = _eval_symbolic(S, name, p, [Fr(tv)])
+        ref = [float(x) for x in rows[0][0]]
+        pf = {q: _fl(p[q]) for q in MECH[name]["params"]}
+        for sp_name in LT_SPELLINGS:
+            res.states += 1
+            res.transitions += 1
+            res.evaluations += 1
+            res.nontrivial += 1
+            kw = _num_spelling_kw(sp_name)
+            try:
+                tval = np.array([_fl(Fr(tv))] * 2) if sp_name.endswith("[array t]") else _fl(Fr(tv))
+                o = _call(name, tval, pf, kw)
+                got = [float(np.broadcast_to(np.asarray(x, dtype=float), (2,))[0]) for x in o]
+            except Exception as ex:
+                got = _exc_tag(ex)
+            ok = not isinstance(got, str) and all(abs(g - r) <= TOL_TRACE * abs(r) for g, r in zip(got, ref))
+            res.outcomes["trace-product:%s" % ("agrees" if ok else "DIFFERS")] += 1
+            if not ok:
+                res.violation("C17|%s|%s|trace-product-differs-from-symbolic-form" % (name, _family(sp_name)), "%s(t=%s, %s) [%s] = %r, symbolic form %r (relative tolerance %g per component)" % (
+                    name, tv, _pstr(p), sp_name, got, ref, TOL_TRACE), dict(layer="TR"), got, ref)
+
+
+def _check_identity(res):
+    """each offered closed form is the function its name says (the name is what fitting drivers key results and files by, and what
+    a pickle of the function stores)"""
+    import pickle
+    from chempy.kinetics import integrated as I
+
+    for name in ORDER:
+        res.states += 1
+        res.transitions += 1
+        res.evaluations += 1
+        f = getattr(I, name)
+        try:
+            got = (f.__name__, pickle.loads(pickle.dumps(f)) is f)
+        except Exception as ex:
+            got = (getattr(f, "__name__", None), _exc_tag(ex))
+        res.outcomes["identity:%s" % ("ok" if got == (name, True) else "WRONG")] += 1
+        if got != (name, True):
+            res.violation("C17|%s|identity" % name, "chempy.kinetics.integrated.%s: (__name__, pickle round trip gives the same function) = %r" % (name, got), dict(layer="ID"), list(got), [name, True])
+
+
 def run_chunk(chunk, tier):
     res = Result()
     if chunk[0] == "S":
@@ -560,6 +618,9 @@ def run_chunk(chunk, tier):
             res.nontrivial += 1
             res.symbols["long-time:" + name] += 1
             _check_state(res, name, p, list(LT_TIMES), S, modes=list(LT_SPELLINGS) if MECH[name]["has_backend"] else ["float", "numpy[array t]"])
+        if name == "unary_irrev_cstr":
+            _check_trace(res, S)
+            _check_identity(res)
         res.sample(dict(layer="LT", fn=name, times=[_s(x) for x in LT_TIMES], points=len(LT_POINTS[name])), limit=1)
         return res
     _, name, i, j = chunk
@@ -613,6 +674,14 @@ def _simplify_chunk(res, name):
 # ------------------------------------------------------------------------------------------------ replay
 def replay(case):
     res = Result()
+    if case.get("layer") in ("TR", "ID"):
+        sub = Result()
+        _check_trace(sub, _symbolic("unary_irrev_cstr")) if case["layer"] == "TR" else _check_identity(sub)
+        res.violations = [v for v in sub.violations if v["key"] == case.get("expect_key")] or list(sub.violations)
+        if res.violations:
+            v = res.violations[0]
+            return dict(key=v["key"], what=v["what"], observed=v["observed"], expected=v["expected"])
+        return None
     name = case["fn"]
     S = _symbolic(name)
     if case.get("mode") == "build":
